@@ -9,6 +9,7 @@ import (
 	"io"
 	"net"
 	"sync"
+	"sync/atomic"
 
 	"github.com/zeebo/errs"
 )
@@ -158,8 +159,28 @@ func (m *ListenMux) monitorListener(prefix string, lis *listener) {
 }
 
 func (m *ListenMux) routeConn(conn net.Conn) {
+	// a connection that is still sending its prefix when the mux stops can
+	// never be delivered to a listener any more. close it at that point (which
+	// also ends the read) instead of keeping it for as long as the peer does.
+	var state int32 // 0: reading the prefix, 1: prefix read, 2: closed by the stop
+	read := make(chan struct{})
+	go func() {
+		select {
+		case <-m.done:
+			if atomic.CompareAndSwapInt32(&state, 0, 2) {
+				_ = conn.Close()
+			}
+		case <-read:
+		}
+	}()
+
 	buf := make([]byte, m.prefixLen)
-	if _, err := io.ReadFull(conn, buf); err != nil {
+	_, err := io.ReadFull(conn, buf)
+	close(read)
+	if !atomic.CompareAndSwapInt32(&state, 0, 1) {
+		return
+	}
+	if err != nil {
 		// TODO(jeff): how to handle these errors?
 		_ = conn.Close()
 		return
